@@ -61,3 +61,6 @@ L('n_star_nonneg', {'u': 'str', 'lo': 'int', 'hi': 'int'}, 'n_star(u, lo, hi) >=
 # a sequence with no star at all / whose only star is the last character
 L('n_star_zero', {'u': 'str', 'lo': 'int', 'hi': 'int'},
   'implies(n_star(u, lo, hi) == 0, forall(lambda j: Not(u[j] == "*"), lo, hi))', ind='hi', base='lo', uses=['n_star_nonneg(u, lo, hi - 1)'])
+
+# the running maximum (started at -1) never drops below -1; instances are added wherever a MaxR term is unfolded
+L('rmax_lower', {'a': 'list[real]', 'lo': 'int', 'hi': 'int'}, 'rmax(lambda j: a[j], lo, hi) >= -1', ind='hi', base='lo')
